@@ -439,6 +439,29 @@ pub fn gen_deep_laws(args: &Args) {
             emit(text.to_string(), "must-fail", &mut w);
         }
     }
+    // the neighbourhood of the limit, wherever it lies: for three shapes of activation (one, two and four slots per
+    // level) the first depth that fails is located by bisection; every depth from 24 below it to 8 above it is then a law
+    // of its own - the closed form below the limit, an error from the limit on (never a wrong value, never a crash, and
+    // no depth that works again beyond one that failed)
+    let shapes: [(&str, fn(i64) -> String); 3] = [
+        ("functie diep(n) { als n == 0 { antwoord 1 }; diep(n - 1) }; ", |d| format!("diep({d}) == 1")),
+        ("functie tel(n, acc) { als n == 0 { antwoord acc }; tel(n - 1, acc + 1) }; ", |d| format!("tel({d}, 0) == {d}")),
+        ("functie som(n) { als n == 0 { antwoord 0 }; stel hier = n * 2; stel half = hier / 2; half + som(n - 1) }; ", |d| format!("som({d}) == {}", d * (d + 1) / 2)),
+    ];
+    for (def, call) in shapes {
+        let works = |d: i64, w: &mut Worker| -> bool {
+            let r = w.eval(&format!("{def}{}", call(d)), &opts);
+            r["obs"]["class"] == "Value"
+        };
+        let (mut lo, mut hi) = (1000i64, 70000i64); // lo works, hi fails (checked by the laws emitted below either way)
+        while hi - lo > 1 {
+            let mid = (lo + hi) / 2;
+            if works(mid, &mut w) { lo = mid } else { hi = mid }
+        }
+        for d in (hi - 24)..(hi + 8) {
+            emit(format!("{def}{}", call(d)), if d < hi { "yields-ja" } else { "must-fail" }, &mut w);
+        }
+    }
     // beyond the limit (more than 65 535 live slots): any error, never a value
     for depth in [25000i64, 40000, 70000] {
         emit(format!("functie som(n) {{ als n == 0 {{ antwoord 0 }}; stel hier = n * 2; stel half = hier / 2; half + som(n - 1) }}; som({depth})"), "must-fail", &mut w);
